@@ -20,6 +20,12 @@ def key_fn(case, obs, verdict):
         elif "invalid configuration" in verdict:
             what = "config-error"
         return "registry-settings:%s-%s-def%s:%s:%s" % (f[1], f[2], f[4], f[6], what)
+    if f[0] == "ovl":
+        what = "stray-or-misfit-setting-accepted" if "names no field" in verdict else "product-config"
+        return "registry-overlay:%s-%s-def%s:%s:%s" % (f[1], f[2], f[3], f[4], what)
+    if f[0] == "nm":
+        what = "wrong-or-no-entry" if "did not reach" in verdict else "unregistered-name-accepted"
+        return "registry-names:%s:%s:%s" % ({"H": "config-hooks", "R": "registry"}.get(f[1], f[1]), f[2], what)
     if f[0] == "ftype":
         return "registry-factory-forms:%s:%s-%s" % (f[1], f[2], f[3])
     if f[0] == "reg":
